@@ -279,7 +279,7 @@ def check_seq(prop, tier):
     derived = mccheck.derived_executions(prop, tier, wd, rng)
     # 2b. the scale batch: big capacities, long histories, mass expiry, long ranges
     scale = vlib.scale_batch(rng, kinds, tier)
-    all_execs = derived + execs + scale
+    all_execs = derived + execs
     if prop == "C02":
         # the listed known finding KF1 is always exercised, so that its KNOWN-FINDING line is always printed
         all_execs += [["cfg utmap 0 0 100 0 1 1 1 0 3 250", "ins 1 5 3 0", "find 1 0", "destroy"],
@@ -290,6 +290,19 @@ def check_seq(prop, tier):
     res = seqcheck.run_scripts(all_execs, spec["strict"], os.path.join(wd, "slice"), "plain", "s", spec["nontrivial"])
     if res.infra:
         infra = res.infra
+    # the scale batch in runs of its own (few, long logs: one or two per TLC process)
+    sres = seqcheck.run_scripts(scale, spec["strict"], os.path.join(wd, "scale"), "plain", "z", spec["nontrivial"])
+    if sres.infra:
+        infra = sres.infra
+    res.executions += sres.executions
+    res.accepted += sres.accepted
+    res.events += sres.events
+    res.rejections += sres.rejections
+    res.crashes += sres.crashes
+    res.leaks += sres.leaks
+    res.distinct |= sres.distinct
+    res.nontrivial_set |= sres.nontrivial_set
+    res.nontrivial = len(res.nontrivial_set)
     v2, k2 = handle_rejections(prop, res.rejections, spec["strict"], wd)
     viol += v2
     known += k2
@@ -347,7 +360,8 @@ def check_seq(prop, tier):
     # 4. full conformance (all tags + SPEC): recorded, never decides
     full = None
     if not viol and not infra:
-        sub = all_execs if tier == "thorough" else all_execs[:max(200, len(all_execs) // 5)]
+        # (a fifth of the executions; the thorough tier takes up to 30 000; the scale batch is left to the slice)
+        sub = all_execs[:30000] if tier == "thorough" else all_execs[:max(200, len(all_execs) // 5)]
         fr = seqcheck.run_scripts(sub, ALL_TAGS, os.path.join(wd, "full"), "plain", "f")
         full = dict(executions=fr.executions, accepted=fr.accepted, rejected=len(fr.rejections))
         if fr.rejections:
